@@ -27,8 +27,8 @@ theorem filemapOK2 : FilemapOK Ex.fs2 [[100]] Ex.fmap2 := by
   · exact ⟨by decide, [1,2,9,9], by decide, rfl⟩
   · exact ⟨by decide, [1,2,3,4], by decide, rfl⟩
 
-theorem intactV1_2 : IntactV1 Ex.fs2 Ex.fmap2 [⟨[102], [102], 4, none⟩] [[1,2,3,4]] := by
-  intro i r h
+theorem intactV1_2 : IntactV1 Ex.fs2 Ex.fmap2 [⟨[102], [102], 4, none, false⟩] [[1,2,3,4]] := by
+  intro i r h _
   cases i with
   | zero =>
     simp at h; subst h
@@ -51,8 +51,8 @@ theorem filemapOK3 : FilemapOK Ex.fs2 [[100]] Ex.fmap3 := by
   · exact ⟨by decide, [1,2,3,4], by decide, rfl⟩
   · exact ⟨by decide, [1,2,9,9], by decide, rfl⟩
 
-theorem intactV1_3 : IntactV1 Ex.fs2 Ex.fmap3 [⟨[102], [102], 4, none⟩] [[1,2,3,4]] := by
-  intro i r h
+theorem intactV1_3 : IntactV1 Ex.fs2 Ex.fmap3 [⟨[102], [102], 4, none, false⟩] [[1,2,3,4]] := by
+  intro i r h _
   cases i with
   | zero =>
     simp at h; subst h
@@ -61,13 +61,13 @@ theorem intactV1_3 : IntactV1 Ex.fs2 Ex.fmap3 [⟨[102], [102], 4, none⟩] [[1,
   | succ i => simp at h
 
 theorem destsSeparate_single (dest : Path) (r : FileRec) : DestsSeparate dest [r] := by
-  intro i j ri rj di dj hi hj _ _ _
+  intro i j ri rj di dj hi hj _ _ _ _ _
   have h1 : i < 1 := by simpa using (List.getElem?_eq_some_iff.mp hi).1
   have h2 : j < 1 := by simpa using (List.getElem?_eq_some_iff.mp hj).1
   omega
 
-theorem destFresh_2 : DestFresh Ex.fs2 [[100]] [⟨[102], [102], 4, none⟩] := by
-  intro r hr d hsj
+theorem destFresh_2 : DestFresh Ex.fs2 [[100]] [⟨[102], [102], 4, none, false⟩] := by
+  intro r hr _ d hsj
   simp at hr; subst hr
   have : safeJoin [[100]] [102] = some [[100],[102]] := by decide
   simp only at hsj
@@ -76,8 +76,8 @@ theorem destFresh_2 : DestFresh Ex.fs2 [[100]] [⟨[102], [102], 4, none⟩] := 
 
 /-- with the original enumerated first nothing precedes an intact copy -/
 theorem noFirstPieceDecoy_3 : NoFirstPieceDecoy Ex.fs2 Ex.fmap3
-    (v1PieceNodes 2 [[1,2],[3,4]] [⟨[102], [102], 4, none⟩]) [[1,2,3,4]] := by
-  intro pre pp post _ pn _ _ cands l1 c l2 o hl hsplit _ hread ho x hx
+    (v1PieceNodes 2 [[1,2],[3,4]] [⟨[102], [102], 4, none, false⟩]) [[1,2,3,4]] := by
+  intro pre pp post _ pn _ _ _ cands l1 c l2 o hl hsplit _ hread ho x hx
   have hidx : pn.idx = 0 := by
     have := (List.getElem?_eq_some_iff.mp ho).1
     simp at this; exact this
@@ -109,5 +109,48 @@ theorem noFirstPieceDecoy_3 : NoFirstPieceDecoy Ex.fs2 Ex.fmap3
     | cons b l1'' =>
       have := congrArg List.length hrest
       simp at this
+
+/-! the world with a padding entry (`Ex.fsP`, `Ex.fmapP`, `Ex.filesP`, `Ex.origP`) -/
+
+theorem filemapOKP : FilemapOK Ex.fsP [[100]] Ex.fmapP := by
+  intro name cands hl c hc
+  simp only [Ex.fmapP, List.lookup] at hl
+  split at hl
+  · injection hl with hl; subst hl
+    simp at hc; subst hc
+    exact ⟨by decide, [1,2,3], by decide, rfl⟩
+  · split at hl
+    · injection hl with hl; subst hl
+      simp at hc; subst hc
+      exact ⟨by decide, [5,6], by decide, rfl⟩
+    · cases hl
+
+theorem intactV1_P : IntactV1 Ex.fsP Ex.fmapP Ex.filesP Ex.origP := by
+  intro i r h hp
+  match i, h with
+  | 0, h =>
+    simp [Ex.filesP] at h; subst h
+    exact ⟨[([[115],[97]], 3)], [[115],[97]], [1,2,3], by decide, by decide, by decide, by decide⟩
+  | 1, h => simp [Ex.filesP] at h; subst h; simp at hp
+  | 2, h =>
+    simp [Ex.filesP] at h; subst h
+    exact ⟨[([[115],[98]], 2)], [[115],[98]], [5,6], by decide, by decide, by decide, by decide⟩
+  | n + 3, h => simp [Ex.filesP] at h
+
+theorem padsAreZeros_P : PadsAreZeros Ex.filesP Ex.origP := by
+  intro i r h hp
+  match i, h with
+  | 0, h => simp [Ex.filesP] at h; subst h; simp at hp
+  | 1, h => simp [Ex.filesP] at h; subst h; decide
+  | 2, h => simp [Ex.filesP] at h; subst h; simp at hp
+  | n + 3, h => simp [Ex.filesP] at h
+
+theorem chunks_P : chunks 4 Ex.origP.flatten = [[1,2,3,0],[5,6]] := by
+  have : Ex.origP.flatten = [1,2,3,0,5,6] := by decide
+  rw [this, chunks_cons 4 (by decide) _ (by decide)]
+  simp only [List.take, List.drop]
+  rw [chunks_cons 4 (by decide) _ (by decide)]
+  simp only [List.take, List.drop]
+  rw [chunks_nil]
 
 end TorrentVerif.Rebuild.Ex
